@@ -166,12 +166,14 @@ def h_mle_tp(ctx):
             X[i, j] = a + ctx.m.I * b
             X[j, i] = a - ctx.m.I * b
     Y = mle._tp_proj(X)
+    # Choi matrices are indexed (output, input) as in choi_from_unitary: trace preservation
+    # is tr_output(C) = identity on the input, i.e. sum_a C[(a,i),(a,j)] = delta_ij
     for i in range(2):
         for j in range(2):
             t = 0
-            for k in range(2):
-                t = t + Y[2 * i + k, 2 * j + k]
-            ctx.check_eq(t, 1 if i == j else 0, "mle:tp-projection-has-identity-partial-trace")
+            for a in range(2):
+                t = t + Y[2 * a + i, 2 * a + j]
+            ctx.check_eq(t, 1 if i == j else 0, "mle:tp-projection-has-identity-partial-trace-over-the-output")
     ctx.check_eq(Y, ctx.m.dagger(Y), "mle:tp-projection-keeps-hermiticity")
 
 
